@@ -446,3 +446,13 @@ def frames(O):
                 R.prove(O, p, z3.And(eng.length(vals) == want_len,
                                      eng.length(fs) == z3.If(nf == bv64(0), bv64(0), nf - bv64(1))),
                         "pop_frame drops exactly the bindings of the innermost frame and that frame's record")
+
+
+@obligation("C01/parser-scoping", desc="parser arms build the scopes the statement prescribes: loop / repeat push a frame for "
+            "their counter around the body only (bound parsed outside), while opens no scope, let binds after its "
+            "initialiser")
+def parser_scoping(O):
+    from . import C11
+    W = dri.WithRep(O, rep())
+    for ob in ("let", "loop", "repeat", "while"):
+        C11.SCOPE_OBS[ob](W)
